@@ -1130,6 +1130,125 @@ static void check_shell(Case &c, int fn, const std::vector<Str> &names, size_t s
              esc(line).c_str(), rc, ret, 100 + hit);
 }
 
+// Nested dispatch: the handler of the outer command dispatches a second line through the same dispatcher (a
+// "repeat"/"time"/"sudo"-style command) before it looks at its own arguments — those must still be the tokens of
+// its own line, inside its own buffer, and the inner handler must have seen the tokens of the inner line.
+struct Nest
+{
+    int fn = 0;
+    const mshell_command *mt = nullptr;
+    const rshell_command *rt = nullptr;
+    NBlk *inner = nullptr; // the inner line in its own exactly-sized block
+    int inner_rc = -1, inner_ret = -1;
+    int depth = 0;
+};
+static Nest g_nest;
+static void nested_dispatch()
+{
+    if (g_nest.depth)
+        return;
+    g_nest.depth = 1;
+    const char *lo = g_lo, *hi = g_hi;
+    g_lo = g_nest.inner->c();
+    g_hi = g_nest.inner->c() + g_nest.inner->n;
+    if (g_nest.fn == MSH_EXEC)
+        g_nest.inner_rc = mshell_execute(g_nest.inner->c(), g_nest.mt, &g_nest.inner_ret);
+    else if (g_nest.fn == MSH_TABLES)
+    {
+        const mshell_command *tabs[2] = {g_nest.mt, nullptr};
+        g_nest.inner_rc = mshell_tables_execute(g_nest.inner->c(), tabs, &g_nest.inner_ret);
+    }
+    else if (g_nest.fn == RSH_EXEC)
+        g_nest.inner_rc = rshell_execute(g_nest.inner->c(), g_nest.rt, &g_nest.inner_ret, 0, nullptr, 0);
+    else
+    {
+        rshell_command_table tabs[2] = {{g_nest.rt, 0}, {nullptr, 0}};
+        g_nest.inner_rc = rshell_tables_execute(g_nest.inner->c(), tabs, &g_nest.inner_ret, nullptr, 0);
+    }
+    g_lo = lo;
+    g_hi = hi;
+    g_nest.depth = 0;
+}
+static int mh_outer(int argc, char **argv)
+{
+    nested_dispatch();
+    record(0, argc, argv, nullptr, 0);
+    return 100;
+}
+static int rh_outer(int argc, char **argv, char *out, int maxsize)
+{
+    nested_dispatch();
+    record(0, argc, argv, out, maxsize);
+    return 100;
+}
+static void t_shell_nested(Src &s, Case &c)
+{
+    static const char *const wordpool[] = {"x", "yy", "1", "b.", "q,q", "zzz", "7"};
+    int fn = (int)s.below(4);
+    auto make_line = [&](const char *cmd, size_t nwords) {
+        Str l = cmd;
+        for (size_t i = 0; i < nwords; i++)
+        {
+            l += s.coin() ? " " : "  ";
+            l += wordpool[s.below(7)];
+        }
+        if (s.coin())
+            l += s.coin() ? "\r\n" : " ";
+        return l;
+    };
+    Str outer = make_line("rep", (size_t)s.range(0, 9)), inner = make_line("echo", (size_t)s.range(0, 9));
+    mshell_command mt[3] = {{"rep", mh_outer, nullptr}, {"echo", mh<1>, "help"}, {nullptr, nullptr, nullptr}};
+    rshell_command rt[3] = {{"rep", rh_outer, nullptr}, {"echo", rh<1>, "help"}, {nullptr, nullptr, nullptr}};
+    NBlk oblk(outer.c_str(), outer.size() + 1), iblk(inner.c_str(), inner.size() + 1);
+    g_nest = Nest{};
+    g_nest.fn = fn;
+    g_nest.mt = mt;
+    g_nest.rt = rt;
+    g_nest.inner = &iblk;
+    g_calls.clear();
+    g_lo = oblk.c();
+    g_hi = oblk.c() + outer.size() + 1;
+    int ret = -777, rc;
+    const char *F = FN_NAME[fn];
+    c.log("%s outer=\"%s\" inner=\"%s\"", F, esc(outer).c_str(), esc(inner).c_str());
+    c.label(F);
+    c.nontrivial = true;
+    scribble_stack();
+    if (fn == MSH_EXEC)
+        rc = mshell_execute(oblk.c(), mt, &ret);
+    else if (fn == MSH_TABLES)
+    {
+        const mshell_command *tabs[2] = {mt, nullptr};
+        rc = mshell_tables_execute(oblk.c(), tabs, &ret);
+    }
+    else if (fn == RSH_EXEC)
+        rc = rshell_execute(oblk.c(), rt, &ret, 0, nullptr, 0);
+    else
+    {
+        rshell_command_table tabs[2] = {{rt, 0}, {nullptr, 0}};
+        rc = rshell_tables_execute(oblk.c(), tabs, &ret, nullptr, 0);
+    }
+    auto want_of = [&](const Str &line) {
+        std::vector<Str> w;
+        auto words = ref_words(line, is_ws);
+        for (size_t i = 0; i < words.size() && i < 10; i++)
+            w.push_back(line.substr(words[i].off, words[i].len));
+        return w;
+    };
+    VP_CHECK(g_calls.size() == 2, "shell_nested_calls", "%s: %zu handler calls, want the inner and the outer one", F, g_calls.size());
+    VP_CHECK(g_calls[0].id == 1 && g_calls[0].ptrs_inside && g_calls[0].args == want_of(inner), "shell_nested_inner_args",
+             "%s: the inner handler got %s, the inner line has %s", F, show(g_calls[0].args).c_str(), show(want_of(inner)).c_str());
+    VP_CHECK(g_nest.inner_rc == SSHELL_OK && g_nest.inner_ret == 101, "shell_nested_inner_rc", "%s: inner dispatch rc=%d ret=%d", F, g_nest.inner_rc,
+             g_nest.inner_ret);
+    VP_CHECK(g_calls[1].id == 0 && g_calls[1].ptrs_inside && g_calls[1].args == want_of(outer), "shell_nested_outer_args",
+             "%s: after the nested dispatch the outer handler's argv reads %s, its line has %s", F, show(g_calls[1].args).c_str(),
+             show(want_of(outer)).c_str());
+    VP_CHECK(rc == SSHELL_OK && ret == 100, "shell_nested_rc", "%s: outer dispatch rc=%d ret=%d", F, rc, ret);
+}
+VP_TARGET("shell_nested", t_shell_nested,
+          "all four dispatchers: the handler of the outer command (\"rep\" + 0..9 words) dispatches an inner line (\"echo\" + 0..9 words) through the same "
+          "dispatcher before reading its own argv; both handlers must have received exactly the tokens of their own line, pointing into their own buffer");
+
 static void t_shell(Src &s, Case &c)
 {
     static const char *const pool[] = {"a", "ab", "b", "go", "abc", "ba"};
